@@ -116,6 +116,21 @@ def random_history(rng, profile="alloc", length=40):
         if profile == "bank":
             return rng.choice([0, 1, 2, 5, 35, 36, 40, 127])
         return rng.choice(perc_keys if ch == 9 else mel_keys)
+    if profile == "bank" and rng.random() < 0.4:
+        # XG SFX kits are percussion banks 128 + program: only a WOPN file can carry them (the bank API stops at LSB 127).
+        # SFX kit 0 is the fallback of a missing / blank SFX kit; drum kit 0 only comes after it.
+        lay = random_layout(rng)
+        nid = 700
+        for lsb in [128] + [l for l in (129, 130, 133) if rng.random() < 0.5]:
+            il = []
+            for i in [35, 36, 40, 1, 2, 0]:
+                if lsb != 128 and rng.random() < 0.45:
+                    continue
+                il.append(ins(i, nid, drum=rng.choice([0, 40, 70, 127]), kon=rng.choice([50, 500]), koff=rng.choice([20, 300]))); nid += 1
+            lay.append({"p": 1, "msb": 0, "lsb": lsb, "ins": il})
+        h.append({"e": "OpenBank", "banks": lay})
+        ch = rng.choice(chans)
+        h += [{"e": "CC", "ch": ch, "n": 0, "v": 126}, {"e": "Patch", "ch": ch, "p": rng.choice([0, 1, 2, 5])}]
     if profile == "alloc":
         # prelude: controller set-ups that change how later notes behave (portamento, vibrato, soft pedal, ...)
         for _ in range(rng.choice([0, 0, 1, 2, 4])):
